@@ -448,6 +448,86 @@ def w_reset_histories(item, seed=0, depth=3):
     return t
 
 
+# ----------------------------------------------------------------------------- settings that change across a reset
+RS_OPT = {
+    "adam": lambda: copy.deepcopy(ADAM),
+    # learnable scan positions with a rate that moves positions across pixel-rounding boundaries within a few iterations
+    "adam+dataset": lambda: dict(copy.deepcopy(ADAM), dataset={"type": "sgd", "lr": 3.0}),
+    "adam+dataset_off": lambda: dict(copy.deepcopy(ADAM), dataset={"type": "none"}),
+    "sgd_obj_only": lambda: {"object": {"type": "sgd", "lr": 0.3}},
+    # fully explicit: every optimizable part named (settings are sticky: a part that is not named keeps its optimizer)
+    "sgd_obj_explicit": lambda: {"object": {"type": "sgd", "lr": 0.3}, "probe": {"type": "none"}, "dataset": {"type": "none"}},
+}
+RS_EXPLICIT_OPT = ["adam+dataset", "adam+dataset_off", "sgd_obj_explicit"]
+RS_EXPLICIT_SCHED = {"none": lambda: {"object": {"type": "none"}}, "exp_factor": lambda: {"object": {"type": "exp", "factor": 0.01}}, "linear_horizon": lambda: {"object": {"type": "linear", "start_factor": 0.2}}}
+RS_SCHED = {
+    "none": lambda: None,
+    "exp_gamma": lambda: {"object": {"type": "exp", "gamma": 0.7}},
+    # schedulers whose constants depend on the iteration HORIZON of the call that creates them
+    "exp_factor": lambda: {"object": {"type": "exp", "factor": 0.01}},
+    "linear_horizon": lambda: {"object": {"type": "linear", "start_factor": 0.2}},
+    "cyclic": lambda: {"object": {"type": "cyclic", "step_size_up": 2}},
+}
+
+
+def _rs_problem(J, obj_type, modes, seed):
+    cfg = dict(tiny_cfg(J, obj_type, modes, 1), learn_scan_positions=True, learn_descan=False)
+    return build_problem(cfg, seed, [J, modes, 1, 5])
+
+
+def _rs_run(P, bs, iters, okind, skind, pseed=None, passing="all"):
+    kw = {}
+    if passing in ("all", "optimizer_only", "explicit"):
+        kw["optimizer_params"] = RS_OPT[okind]()
+    if passing == "all" and RS_SCHED[skind]() is not None:
+        kw["scheduler_params"] = RS_SCHED[skind]()
+    if passing == "explicit":
+        kw["scheduler_params"] = RS_EXPLICIT_SCHED[skind]()
+    if pseed is not None:
+        P.ptycho.rng = int(pseed)
+    P.ptycho.reconstruct(num_iters=iters, reset=True, batch_size=bs, **kw)
+    lrs = {k: [float(x) for x in v] for k, v in sorted(P.ptycho.iter_lrs.items())}
+    return np.array(P.ptycho.iter_losses, dtype=np.float64), lrs, P.dset.scan_positions_px.detach().cpu().numpy().astype(np.float64).copy()
+
+
+def w_reset_settings(item, seed=0):
+    """'The same run after a reset': a run configured by (optimizers, schedulers) is repeated on the same object after
+    reset=True (i) passing the same keyword arguments again, (ii) passing none (the stored ones are reused), and (iii)
+    a run with OTHER settings after the reset must equal that run on a fresh object. Settings alphabet: with / without a
+    learnable dataset, schedulers with and without constants that depend on the iteration horizon."""
+    J, obj_type, modes, bs, pseed, oa, sa = item
+    t = Tally()
+    iters = 4
+    with warnings.catch_warnings():
+        warnings.simplefilter("ignore")
+        P = _rs_problem(J, obj_type, modes, seed)
+        pos0 = P.dset.scan_positions_px.detach().cpu().numpy().astype(np.float64).copy()
+        first, lr1, pos1 = _rs_run(P, bs, iters, oa, sa, pseed)
+        moved = int(np.sum(np.round(pos1) != np.round(pos0)))
+        t.extra["positions_crossing_a_rounding_boundary"] += moved
+        for passing in ("all", "none"):
+            case = {"part": "reset_settings", "J": J, "obj_type": obj_type, "modes": modes, "batch_size": bs, "ptycho_seed": pseed, "first": [oa, sa], "second": [oa, sa], "passing": passing}
+            got, lr2, _ = _rs_run(P, bs, iters, oa, sa, None, passing)
+            t.case(key=case, nontrivial=True, outcome=[round(float(x), 7) for x in got])
+            if got.tobytes() != first.tobytes() or lr2 != lr1:
+                t.fail({"relation": "reset_repeats_loss_history", "part": "reset_settings", "passing": passing, "optimizers": oa, "scheduler": sa}, case, f"run with optimizers={oa} scheduler={sa}, then reconstruct(reset=True) passing {'the same keyword arguments' if passing == 'all' else 'no optimizer / scheduler arguments (stored ones reused)'}: losses {got.tolist()} vs first run {first.tolist()}; lrs {lr2} vs {lr1}")
+        # (iii) other settings after the reset == those settings on a fresh object
+        # (the second call names EVERY part explicitly: settings are sticky, an omitted part keeps what it had)
+        for ob in RS_EXPLICIT_OPT:
+            for sb in RS_EXPLICIT_SCHED:
+                case = {"part": "reset_settings", "J": J, "obj_type": obj_type, "modes": modes, "batch_size": bs, "ptycho_seed": pseed, "first": [oa, sa], "second": [ob, sb], "passing": "explicit"}
+                Q = _rs_problem(J, obj_type, modes, seed)
+                fresh, lrf, posf = _rs_run(Q, bs, iters, ob, sb, pseed, "explicit")
+                R = _rs_problem(J, obj_type, modes, seed)
+                _rs_run(R, bs, iters, oa, sa, pseed)
+                got, lrg, posg = _rs_run(R, bs, iters, ob, sb, pseed, "explicit")
+                t.case(key=case, nontrivial=True, outcome=[round(float(x), 7) for x in got])
+                if got.tobytes() != fresh.tobytes() or not np.array_equal(posg, posf):
+                    t.fail({"relation": "run_after_reset_equals_run_on_fresh_object", "part": "reset_settings", "first_optimizers": oa, "second_optimizers": ob, "first_scheduler": sa, "second_scheduler": sb}, case, f"first run optimizers={oa} scheduler={sa}; then reset=True with optimizers={ob} scheduler={sb}: losses {got.tolist()}, the same call on a fresh object gives {fresh.tolist()} (positions differ by {float(np.abs(posg - posf).max()):.3g})")
+    return t
+
+
+
 def _interleavings(a, b):
     if not a or not b:
         yield list(a) + list(b)
@@ -632,12 +712,30 @@ def run(ctx):
     ctx.pmap(w_neutral_ops, [(4, "complex", 1, 2, 5), (12, "complex", 1, 5, 11)] if q else [(4, "complex", 1, 2, 5), (4, "potential", 2, 1, 11), (12, "complex", 1, 5, 11), (12, "potential", 2, 3, 5)], chunk=1, label="calls that are no reconstruction steps", seed=ctx.seed, scratch=ctx.scratch)
     ctx.pmap(w_shared_generator, [(4, "complex", 1, 2, 5), (12, "complex", 1, 5, 11)] if q else [(4, "complex", 1, 2, 5), (4, "potential", 2, 1, 11), (12, "complex", 1, 5, 11), (12, "potential", 2, 3, 5)], chunk=1, label="one Generator object, several holders", seed=ctx.seed)
     ctx.pmap(w_reset_histories, rh, chunk=1, label="reset after every history", seed=ctx.seed, depth=2 if q else 3)
+    rs_base = [(12, "complex", 1, 4, 11)] if q else [(12, "complex", 1, 4, 11), (4, "potential", 2, 2, 5)]
+    rs = [b + (o, sc) for b in rs_base for o in RS_OPT for sc in RS_SCHED if o != "sgd_obj_explicit"]
+    mrs = ctx.pmap(w_reset_settings, rs, chunk=1, label="settings that change across a reset", seed=ctx.seed)
+    if mrs.extra["positions_crossing_a_rounding_boundary"] == 0:
+        raise Broken("learnable scan positions never crossed a pixel-rounding boundary: the dataset dimension of the reset part is vacuous")
+    ctx.coverage["bounds"]["reset_settings"] = {"optimizers": list(RS_OPT), "schedulers": list(RS_SCHED), "passing": ["all", "none"], "iterations": 4}
     if m.extra["different_seed_cases"] and m.extra["different_seed_differs"] == 0:
         raise Broken("different seeds never changed the loss history: the shuffle does not matter, determinism check is vacuous")
     ctx.coverage["different_seed_differs"] = f"{int(m.extra['different_seed_differs'])}/{int(m.extra['different_seed_cases'])}"
 
 
+def _replay_reset_settings(ctx, case):
+    t = w_reset_settings((case["J"], case["obj_type"], case["modes"], case["batch_size"], case["ptycho_seed"], case["first"][0], case["first"][1]), seed=ctx.seed)
+    t.fails = [f for f in t.fails if f["case"].get("second") == case["second"] and f["case"].get("passing") == case["passing"]]
+    return t
+
+
 def replay(ctx, case):
+    if case.get("part") == "reset_settings":
+        t = _replay_reset_settings(ctx, case)
+        for f in t.fails:
+            print("  ", f["msg"])
+            ctx.fail(f["cls"], f["case"], f["msg"])
+        return
     t = Tally()
     part = case.get("part")
     if part == "batcher":
